@@ -4,6 +4,8 @@ import PhpVerif.Gen.VersionFacts
 import PhpVerif.Model.NewLines
 import PhpVerif.Model.Glue
 import PhpVerif.Spec.NameRes
+import PhpVerif.Spec.Precedence
+import PhpVerif.Model.Pratt
 /-
 Line-protocol driver: runs the executable model definitions on the operations the Go harness
 also runs on the real code.  One request per line, one answer per line.  Core only (no Mathlib)
@@ -160,6 +162,8 @@ def handle (ws : List String) : String :=
     match Glue.runOps (parseStackOps ops) { stack := [], top := 0, cs := 100, p := 0 } with
     | .ok s => s!"{s.top} {s.cs} {s.p} {intsStr s.stack}"
     | .error f => faultStr f
+  | "climb" :: "7" :: ws => Pratt.climb Spec.phpPrec74 ws
+  | "climb" :: "5" :: ws => Pratt.climb Spec.phpPrec56 ws
   | ["nsr", nsn, hist, q] =>
     match parseRef q with
     | some (r, k) => toHex (((Nsr.Ns.new (unhex nsn)).run (parseHist hist)).resolve r k)
